@@ -41,6 +41,9 @@ STATIC = [
     ("valid", H % "a2" + "complex alpha = 1+2j\nstr r = \"x\"\nG(alpha, r) | 0\nfor int m in 0:3\n    H(m) | m\n"),
     ("template", H % "t1" + "Sgate({r}, {alpha}) | 0\nDgate(-{r}) | 1\nfloat array A =\n    {p0}, 1\nG(A) | 2\n"),
     ("template", H % "t2" + "float alpha = {m}\nG(alpha*2, k=[{r}, 1]) | 0\n"),
+    # symbolic values whose printed form depends on how SymPy is configured at the time of the load
+    ("template", H % "t3" + "float phi = 2*({a}+{b})\ncomplex z = ({a}+1)*({b}-1)\nRgate(phi) | 0\nZgate(3*({a}-{b}), k=[2*({a}+1), z]) | 1\n"),
+    ("template", H % "t4" + "float w = ({r}+1)**2\nG(w, {r}*({r}+2), 2**({alpha}+1)) | 0\nH(-({r}-{alpha})/2) | 1\n"),
     ("tdm", H % "d1" + "type tdm (temporal_modes=3)\nfloat array p0 =\n    1, 2, 3\nint array p1 =\n    4, 5, 6\nfloat alpha = 0.5\nSgate(p0, alpha) | 0\nG(k=p1) | 1\n"),
     ("fail-syntax", H % "f1" + "float alpha = 0.3\nG(alpha | 0\n"),
     ("fail-syntax", "name f2\nfloat alpha = 1\n"),
@@ -95,7 +98,38 @@ def outcome(kind, payload):
         text = blackbird.dumps(p)
     except Exception as e:
         text = "dumps-raises:" + type(e).__name__
-    return ("ok", json.dumps(c, sort_keys=True), text), p
+    return ("ok", json.dumps(c, sort_keys=True), text, symbolic_forms(p)), p
+
+
+def symbolic_forms(p):
+    """Structure of every symbolic value of the program (arguments, keyword
+    values, list elements, variables), not only its numeric signature: the same
+    script must give the same expressions, whatever earlier loads did to the
+    process (e.g. to SymPy's process-wide settings)."""
+    import sympy as sym
+
+    out = []
+
+    def walk(v):
+        if isinstance(v, sym.Basic):
+            out.append(sym.srepr(v))
+        elif isinstance(v, (list, tuple)):
+            for x in v:
+                walk(x)
+        elif hasattr(v, "dtype") and getattr(v, "dtype", None) == object:
+            for x in v.flatten():
+                walk(x)
+        elif hasattr(v, "expr") and hasattr(v, "regrefs"):
+            out.append(sym.srepr(sym.sympify(v.expr)) if not isinstance(v.expr, str) else v.expr)
+
+    for op in p.operations:
+        for a in op.get("args", []) or []:
+            walk(a)
+        for k in sorted(op.get("kwargs", {}) or {}):
+            walk(op["kwargs"][k])
+    for k in sorted(p.variables, key=str):
+        walk(p.variables[k])
+    return out
 
 
 def pristine(kind, payload):
